@@ -401,6 +401,8 @@ var sink atomic.Uint64
 // useResult reads everything a caller can reach from res, iterates Targets, and modifies the caller's OWN copy
 // (append to / reorder the slices of the returned struct, which Resolve built for this call). It never writes
 // through a slice it did not create. Returns targets yielded and records whose ALPN slice has spare capacity.
+var sharedSeqs, sharedSeqDiffers atomic.Int64
+
 func useResult(res ech.ResolveResult, rng *mrand.Rand) (targets, spare, mutations int) {
 	var acc uint64
 	read := func(r ech.ResolveResult, network string) {
@@ -434,6 +436,26 @@ func useResult(res ech.ResolveResult, rng *mrand.Rand) (targets, spare, mutation
 	}
 	read(res, "tcp")
 	read(res, []string{"tcp", "tcp4", "tcp6"}[rng.IntN(3)])
+	// one target sequence handed to two goroutines (a result and what it hands out may be shared)
+	if rng.IntN(4) == 0 {
+		seq := res.Targets("tcp")
+		var n [2]int
+		var wg sync.WaitGroup
+		for g := 0; g < 2; g++ {
+			wg.Add(1)
+			go func() {
+				defer wg.Done()
+				for t := range seq {
+					n[g] += 1 + int(t.Address.Port())&0
+				}
+			}()
+		}
+		wg.Wait()
+		if n[0] != n[1] {
+			sharedSeqDiffers.Add(1)
+		}
+		sharedSeqs.Add(1)
+	}
 	// the caller's own copy
 	mine := res
 	switch rng.IntN(4) {
@@ -591,6 +613,10 @@ func TestCheck(t *testing.T) {
 			r.Floor("conc_held_queries", int64(nRace)*3/2)
 			r.Floor("conc_error_calls", int64(nRace))
 		}
+	}
+	r.Count("target_sequences_iterated_by_two_goroutines", sharedSeqs.Load())
+	if n := sharedSeqDiffers.Load(); n > 0 && !r.Replaying() {
+		r.Violate("race", 0, "targets:shared-sequence-yields-differ", fmt.Sprintf("%d target sequences gave two goroutines iterating them at the same time different numbers of targets", n), map[string]any{"sequences": sharedSeqs.Load()})
 	}
 	hist := map[string]int64{}
 	for d := range overlapHist {
